@@ -1094,6 +1094,18 @@ func dsRebuildCmd(a Args) {
 				ki = 0 // NaN at least once per seed description
 			}
 			key := dsOddKeys[ki]()
+			// the odd key must be a NEW key of the node: a Go map cannot hold a key twice (the later entry
+			// would silently replace the earlier one), while the model's list of pairs can
+			clash := false
+			for _, kv := range node.M {
+				if hx.Canon(kv[0]) == hx.Canon(key) {
+					clash = true
+				}
+			}
+			if clash {
+				s.stats["map-nodes:odd-key-already-there"]++
+				continue
+			}
 			node.MK = "any"
 			ei := g.R.Intn(len(node.M))
 			var note string
